@@ -6,7 +6,7 @@ from . import build as B
 ROOT = os.path.dirname(os.path.dirname(os.path.abspath(__file__)))
 COQ = os.path.join(ROOT, "coq")
 OCAML_BUILD = os.path.join(ROOT, "ocaml", "build")
-EVID = os.path.join(ROOT, "evidence")
+EVID = os.environ.get("VERIF_EVIDENCE_DIR") or os.path.join(ROOT, "evidence")   # override only for experiments (seeded changes)
 REPLAY = os.path.join(EVID, "replay")
 
 # axioms that may appear under Print Assumptions (all declared by Coq's standard library)
